@@ -398,7 +398,8 @@ def local_vector_of_validated(prog, e, segs, v, role, roles, bad):
 
 
 GETTERS = {
-    # (type, method) -> (field predicate, role of the argument, lookup op)
+    # (type, method) -> (field predicate, role of the argument (None: the argument is already a validated subtag value), lookup op)
+    ('LanguageIdentifier', 'has_variant'): (lambda f: 'Variant' in f['ty'], None, 'contains'),
     ('UnicodeExtensionList', 'has_attribute'): (lambda f: terms.norm_ty(f['ty']).startswith('std::vec::Vec<'), 'uattr', 'contains'),
     ('PrivateExtensionList', 'has_tag'): (lambda f: terms.norm_ty(f['ty']).startswith('std::vec::Vec<'), 'privatetag', 'contains'),
     ('UnicodeExtensionList', 'keyword'): (lambda f: 'BTreeMap<' in f['ty'], 'ukey', 'get'),
@@ -410,7 +411,8 @@ def getters(prog, rep, roles):
     n = 0
     facts = prog.facts
     for (ty, name), (pred, role, op) in sorted(GETTERS.items(), key=lambda kv: kv[0]):
-        fns = [f for f, b in prog.bodies.items() if b['kind'] == 'AssocFn' and b.get('impl') and not b['impl']['trait'] and b['impl']['self_ty'].split('::')[-1] == ty and f.endswith('::' + name)]
+        fns = [f for f, b in prog.bodies.items() if b['kind'] == 'AssocFn' and b.get('impl') and not b['impl']['trait'] and b['impl']['self_ty'].split('::')[-1] == ty and f.endswith('::' + name)
+               and f.startswith(mu.TYPES.get(ty, '') + '::')]
         for fn in fns:
             n += 1
             b = prog.bodies[fn]
@@ -428,6 +430,35 @@ def getters(prog, rep, roles):
                     bad.extend(mu.rejected_shape(e, s, role, roles))
                     continue
                 nok += 1
+                if role is None:
+                    # the argument is a subtag value: no validation; an absent list answers false, a present one is searched for exactly the argument
+                    present = None
+                    for k, v in s.state.facts.items():
+                        if k[0] == 'tag':
+                            ap = terms.access_path(k[1])
+                            if ap and ap[0] == 1 and terms.strip_some(ap[1]) == (fi,):
+                                present = v
+                    key = None
+                    for ev in s.state.events:
+                        if ev[0] != 'call' or not ev[2]:
+                            continue
+                        lastn = ev[1].split('::')[-1]
+                        if lastn in ('contains', 'binary_search') and len(ev[2]) == 2:
+                            ap = terms.access_path(ev[2][0])
+                            if ap and ap[0] == 1 and terms.strip_some(ap[1])[:1] == (fi,):
+                                key = ts.strip_ref(e.deref_value(s.state, ev[2][1]) if ev[2][1][0] == 'ref' else ev[2][1])
+                        elif lastn in ('any', 'position'):
+                            callterm = ('call', ev[1], ev[2], 0)
+                            pp = ts.position_parts(e, s.state, callterm)
+                            ap = terms.access_path(('ref', pp[0])) if pp and pp[0] is not None else None
+                            if ap and ap[0] == 1 and terms.strip_some(ap[1])[:1] == (fi,):
+                                key = ts.strip_ref(pp[1])
+                    if key is None:
+                        if not (present == 'neg' and s.ret == ('int', 0)):
+                            bad.append('a path answers without looking the argument up in the list (and the list is not known to be absent)')
+                    elif key != ('param', 2):
+                        bad.append('the list is searched for %s, not for the argument' % e.short(key, 100))
+                    continue
                 ops = (op, 'binary_search') if op == 'contains' else (op,)
                 calls = [ev for ev in s.state.events if ev[0] == 'call' and ev[1].split('::')[-1] in ops and ev[2]]
                 hit = None
@@ -441,7 +472,7 @@ def getters(prog, rep, roles):
                 bad.extend(arg_is_validated(e, s.state, e.deref_value(s.state, hit[2][1]) if hit[2][1][0] in ('ref', 'cref') else hit[2][1], role, roles))
             if not nok:
                 bad.append('no successful path')
-            rep.ob('getter:%s::%s' % (ty, name), 'TS-GETTER', fn, b['span'], '%s::%s validates its argument as a %s and looks it up in the field the setters write' % (ty, name, role),
+            rep.ob('getter:%s::%s' % (ty, name), 'TS-GETTER', fn, b['span'], ('%s::%s validates its argument as a %s and looks it up in the field the setters write' % (ty, name, role)) if role else ('%s::%s looks exactly its argument up in the list the setters write' % (ty, name)),
                    not bad, detail='\n'.join(sorted(set(bad))[:4]), how='%d paths' % len(segs))
     return n
 
@@ -478,11 +509,56 @@ def raw_ctor_callers(prog, rep, allinv):
     return n
 
 
+def order_obligations(prog, rep, cfg):
+    """what "sorted" means: the order the collections are kept in is the derived Ord of the element type, and every binary search on an invariant
+    field uses that same order (plain binary_search; a search by another key or comparator would look in the wrong place)"""
+    if cfg == 'K0':
+        from . import c12
+        c12.derived_impls(prog, rep)
+    allinv = mu.invariant_fields(prog.facts)
+    fields = {}
+    for ty, (full, inv) in allinv.items():
+        for (fi, fname, req, nonempty, role) in inv:
+            fields[(ty, fi)] = fname
+    n = 0
+    for fn, b in sorted(prog.bodies.items()):
+        if not fn.startswith(('unic_langid_impl::', 'unic_locale_impl::')) or not b.get('mir'):
+            continue
+        names = [(blk['term'].get('r') or blk['term'].get('f') or '') for blk in b['mir']['blocks'] if blk['term']['k'] == 'call']
+        if not any(re.search(r'::binary_search_by(_key)?$|::partition_point$', x) for x in names):
+            continue
+        ty, _ = mu.self_type(b)
+        if ty not in mu.TYPES:
+            continue
+        e = pxm.PX(prog)
+        try:
+            segs = e.explore(fn)
+        except pxm.Limit:
+            continue
+        bad = []
+        for s in segs:
+            for ev in s.state.events:
+                if ev[0] == 'call' and re.search(r'::binary_search_by(_key)?$', ev[1]) and ev[2]:
+                    try:
+                        tp = models.vec_place(e, s.state, ev[2][0])
+                    except Exception:
+                        tp = None
+                    ap = terms.access_path(('ref', tp)) if tp is not None else None
+                    if ap and ap[0] == 1 and ap[1] and (ty, terms.strip_some(ap[1])[0]) in fields:
+                        bad.append('%s is searched with %s: the list is sorted by the derived order of its elements, a search by another key or comparator is not defined on it' % (
+                            fields[(ty, terms.strip_some(ap[1])[0])], ev[1].split('::')[-1]))
+        n += 1
+        rep.ob('search-order:%s' % validators.fn_key(fn), 'TS-SEARCH-ORDER', fn, b['span'], '%s searches the ordered collections of %s only in the order they are kept in' % (validators.short_fn(fn), ty),
+               not bad, detail='\n'.join(sorted(set(bad))[:3]))
+    return n
+
+
 def representation_obligations(rep, cfgs=('K0',)):
     """typestate obligations shared with C04/C05/C12: invariants at every exit of every mutator and constructor"""
     n_ctor = 0
     for cfg in cfgs:
         prog = common.program(cfg)
+        order_obligations(prog, rep, cfg)
         allinv = mu.invariant_fields(prog.facts)
         for fn, ty in mu.mutator_methods(prog):
             name = fn.split('::')[-1]
@@ -512,6 +588,7 @@ def mutator_obligations(rep, cfgs=('K0', 'K1'), with_getters=True):
     nerr_paths = 0
     for cfg in cfgs:
         prog = common.program(cfg)
+        order_obligations(prog, rep, cfg)
         allinv = mu.invariant_fields(prog.facts)
         if cfg == 'K0':
             ninv = sum(len(v[1]) for v in allinv.values())
@@ -543,7 +620,7 @@ def mutator_obligations(rep, cfgs=('K0', 'K1'), with_getters=True):
                 n_ctor += mu.check_constructor(prog, fn, ty, allinv, rep, EXEMPT_CTORS)
             if with_getters:
                 ng = getters(prog, rep, roles)
-                rep.floor('validating getters', ng, 4)
+                rep.floor('validating getters', ng, 5)
     rep.floor('&mut self methods of the value types (K0)', total_methods, 16)
     rep.floor('mutators with an effect specification', n_effect, 14)
     rep.floor('constructors analysed', n_ctor, 5)
